@@ -5,7 +5,7 @@ tie   : T-gen (GrowCapacity regenerated + validated) and T-cor (extracted model 
 oracle: std::vector<long long> twin inside the harness + the reserve/no-allocation claim evaluated on the real code."""
 import os, re
 
-GEN = ['gen_grow.json', 'gen_guards_shifter.json', 'gen_guards_array.json', 'gen_guards_seg.json', 'gen_shift_loops.json', 'gen_indexof.json']
+GEN = ['gen_grow.json', 'gen_guards_shifter.json', 'gen_guards_array.json', 'gen_guards_seg.json', 'gen_shift_loops.json', 'gen_shift_loops_seg.json', 'gen_indexof.json']
 ELEMS = ['pod', 'ntm', 'cpy', 'smh', 'str']
 # container configs: (name, ic / logInitialItemCount)
 def configs(elem):
@@ -335,6 +335,7 @@ def guard_cases(ctx, scale):
             for c in range(0, cap - n + 2):
                 for ii in range(0, n + 1):
                     out.append('gl insert %d %d %d %d %d' % (n, cap, i, c, ii))
+            out.append('gl aaddback %d %d 0 0 %d' % (n, cap, i))     # Array::AddBack(const Item&), item = element i (aliased) or external
             for c in range(0, cap - n + 4):          # Array::Insert itself: also counts that force a reallocation
                 for ii in range(0, n + 1):
                     out.append('gl ainsert %d %d %d %d %d' % (n, cap, i, c, ii))
@@ -486,7 +487,7 @@ def gen_array_facts(ctx):
             if len(parts) > 2: t += ' else { %s }' % '; '.join(stmts(parts[2]))
             return t
         if k == 'CXXTryStmt': return 'try { %s }' % '; '.join(stmts(st0['inner'][0]))
-        if k == 'ReturnStmt': return 'return'
+        if k == 'ReturnStmt': return ('return ' + expr(st0['inner'][0])) if st0.get('inner') else 'return'
         if k in ('CallExpr', 'CXXMemberCallExpr', 'CXXOperatorCallExpr'): return call(st0)
         if k == 'CompoundStmt': return '{ %s }' % '; '.join(stmts(st0))
         return expr(st0)
@@ -508,6 +509,39 @@ def gen_array_facts(ctx):
         ins_cond = expr(sw(ifs[0])['inner'][0]); ins_copy = stmts(sw(ifs[0])['inner'][1]); ins_direct = stmts(sw(ifs[0])['inner'][2])
         abc = stmts(body_of('pvAddBackGrow', lambda d: len(npar(d)) == 2 and 'const' in d['type']['qualType'].split(',')[0] and 'itemBuffer' in _json.dumps(d)))
         abm = stmts(body_of('pvAddBackGrow', lambda d: len(npar(d)) == 2 and 'itemIndex' in _json.dumps(d)))
+        addback = stmts(body_of('AddBack', lambda d: 'const' in d['type']['qualType'].split('(')[1]))
+        ng_ = [stmts([x for x in d['inner'] if x.get('kind') == 'CompoundStmt'][0]) for d in cxx2coq.method_decls(spec, 'pvAddBackNogrow')]
+        ng_ = [[re.sub(r'forward\(itemCreator\)|itemCreator', 'creator', t_) for t_ in l_] for l_ in ng_]
+        if not ng_ or any(l_ != ng_[0] for l_ in ng_): raise cxx2coq.TranslationError('pvAddBackNogrow: the instantiations differ')
+        nogrow = ng_[0]
+        shrink = stmts(body_of('Shrink', lambda d: npar(d) == ['capacity']))
+        reserve = stmts(body_of('Reserve', lambda d: True))
+        # momo::stdish::vector: the body of each forwarding member
+        cfg2 = {'tu': os.path.join(ctx.pdir, 'inst_stdish.cpp'), 'filter': 'stdish::vector', 'class': 'vector', 'includes': [os.path.join(ctx.repo, 'include')]}
+        vspec = cxx2coq.find_spec(cxx2coq.load_objs(cxx2coq.dump_ast(cfg2, ctx.repo)), cfg2)
+        def vbody(name, pred):
+            ds = [d for d in cxx2coq.method_decls(vspec, name) if pred(d)]
+            if len(ds) != 1: raise cxx2coq.TranslationError('stdish::vector::%s: %d candidate bodies' % (name, len(ds)))
+            return stmts([x for x in ds[0]['inner'] if x.get('kind') == 'CompoundStmt'][0])
+        vfacts = [('vector_insert_n', vbody('insert', lambda d: npar(d) == ['where', 'count', 'value'])),
+                  ('vector_insert_copy', vbody('insert', lambda d: npar(d) == ['where', 'value'] and '&&' not in d['type']['qualType'])),
+                  ('vector_insert_move', vbody('insert', lambda d: npar(d) == ['where', 'value'] and '&&' in d['type']['qualType'])),
+                  ('vector_erase_range', vbody('erase', lambda d: npar(d) == ['first', 'last'])),
+                  ('vector_erase_one', vbody('erase', lambda d: npar(d) == ['where'])),
+                  ('vector_push_back_copy', vbody('push_back', lambda d: '&&' not in d['type']['qualType'])),
+                  ('vector_push_back_move', vbody('push_back', lambda d: '&&' in d['type']['qualType'])),
+                  ('vector_resize_value', vbody('resize', lambda d: npar(d) == ['size', 'value'])),
+                  ('vector_resize', vbody('resize', lambda d: npar(d) == ['size'])),
+                  ('vector_assign_n', vbody('assign', lambda d: npar(d) == ['count', 'value'])),
+                  ('vector_reserve', vbody('reserve', lambda d: True)), ('vector_shrink_to_fit', vbody('shrink_to_fit', lambda d: True)),
+                  ('vector_clear', vbody('clear', lambda d: True)), ('vector_pop_back', vbody('pop_back', lambda d: True))]
+        # Gen_ShiftLoopsSeg.v must really come from the SegmentedArray instantiation of ArrayShifter (spec_index 1 of the AST dump)
+        cfg3 = {'tu': os.path.join(ctx.pdir, 'inst_guards.cpp'), 'filter': 'ArrayShifter', 'class': 'ArrayShifter', 'spec_index': 1,
+                'includes': [os.path.join(ctx.repo, 'include')]}
+        sspec = cxx2coq.find_spec(cxx2coq.load_objs(cxx2coq.dump_ast(cfg3, ctx.repo)), cfg3)
+        targ = _json.dumps([x for x in sspec.get('inner', []) if x.get('kind') == 'TemplateArgument'])
+        if 'momo::SegmentedArray<' not in targ:
+            raise cxx2coq.TranslationError('ArrayShifter specialization #1 is not the SegmentedArray instantiation')
         def lst(name, items): return 'Definition %s : list string := [%s].\n' % (name, '; '.join('"%s"' % x.replace('"', "'") for x in items))
         txt = ('(* GENERATED by props/C05/prop.py (gen_array_facts) from the clang AST of inst_guards.cpp -- do not edit *)\n'
                'From Coq Require Import List String.\nImport ListNotations.\nLocal Open Scope string_scope.\n\n'
@@ -515,7 +549,10 @@ def gen_array_facts(ctx):
                '(* its last statement `if (COND) { COPY BRANCH } else { DIRECT BRANCH }` taken apart *)\n'
                'Definition array_insert_condition : string := "%s".\n' % ins_cond + lst('array_insert_copy_branch', ins_copy) + lst('array_insert_direct_branch', ins_direct) +
                '(* ... of Array::pvAddBackGrow(const Item& item, std::true_type) *)\n' + lst('add_back_grow_copy_stmts', abc) +
-               '(* ... of Array::pvAddBackGrow(Item&& item, std::true_type) *)\n' + lst('add_back_grow_move_stmts', abm))
+               '(* ... of Array::pvAddBackGrow(Item&& item, std::true_type) *)\n' + lst('add_back_grow_move_stmts', abm) +
+               '(* Array::AddBack(const Item&), pvAddBackNogrow(creator), Shrink(size_t), Reserve(size_t) *)\n' + lst('add_back_copy_stmts', addback) + lst('add_back_nogrow_stmts', nogrow) +
+               lst('array_shrink_stmts', shrink) + lst('array_reserve_stmts', reserve) +
+               '(* momo::stdish::vector: the body of each forwarding member *)\n' + ''.join(lst(n_, b_) for n_, b_ in vfacts))
         if not os.path.exists(out) or open(out).read() != txt:
             open(out, 'w').write(txt)
         ctx.tie_obligations.append({'name': 'translate Gen_ArrayFacts (statement order of Array::Insert / pvAddBackGrow)', 'ok': True})
